@@ -25,7 +25,7 @@ func runC03(p *Program, r *Report) {
 	for _, m := range []struct {
 		r string
 		n int
-	}{{"C03.R1", 15}, {"C03.R2", 1}, {"C03.R4", 15}, {"C03.R5", 5}} {
+	}{{"C03.R1", 15}, {"C03.R2", 1}, {"C03.R4", 15}, {"C03.R5", 5}, {"C03.R6", 4}} {
 		r.Min(m.r, m.n)
 	}
 	pl, err := loadPolicy(p)
@@ -117,6 +117,9 @@ func runC03(p *Program, r *Report) {
 	checkIndirect(p, r)
 	// ---- R5 attribute chains --------------------------------------------------------------
 	checkAttrChainsEscape(p, r, pl, "C03.R5")
+	// ---- R6 one context per action: names chosen by conditional branches must agree on it ------------
+	// (otherwise the sanitizer of one branch's context — and its pass-through types — is used for the others)
+	checkConditionalNames(p, r, "C03.R6")
 }
 
 // checkIndirect: Indirect(a) returns a for non-pointers and nil, otherwise the
